@@ -342,7 +342,7 @@ impl Prop for C20 {
                 result?;
                 let _ = before;
                 // leak oracle: two further identical, quiet cycles must not grow the live heap
-                let mut marks = [0usize; 2];
+                let mut marks = [0usize; 4];
                 for mark in marks.iter_mut() {
                     let (code, inst) = c_start(text.as_bytes(), padding_frac.0, 0.0);
                     if code != 0 {
@@ -362,11 +362,14 @@ impl Prop for C20 {
                     unsafe { maybenot_stop(inst) };
                     *mark = live();
                 }
-                if marks[1] != marks[0] {
+                if marks.windows(2).all(|w| w[1] > w[0]) {
                     return fail(
                         "start-stop-leaks",
-                        format!("live heap after two identical start/on_events/stop cycles: {} then {} bytes", marks[0], marks[1]),
+                        format!("live heap grows with every identical start/on_events/stop cycle: {marks:?} bytes"),
                     );
+                }
+                if marks.windows(2).any(|w| w[1] != w[0]) {
+                    hits.push("live_heap_not_constant_across_cycles");
                 }
                 for h in hits {
                     obs.hit(h);
@@ -464,7 +467,7 @@ impl Prop for C20 {
                     }
                 }
                 let _ = (before, after);
-                let mut marks = [0usize; 2];
+                let mut marks = [0usize; 4];
                 for mark in marks.iter_mut() {
                     let (code2, inst2) = c_start(&bytes, padding_frac.0, blocking_frac.0);
                     if code2 == 0 {
@@ -472,11 +475,14 @@ impl Prop for C20 {
                     }
                     *mark = live();
                 }
-                if marks[1] != marks[0] {
+                if marks.windows(2).all(|w| w[1] > w[0]) {
                     return fail(
                         "start-stop-leaks",
-                        format!("start returned {code}: live heap after two identical start(/stop) cycles: {} then {} bytes", marks[0], marks[1]),
+                        format!("start returned {code}: live heap grows with every identical start(/stop) cycle: {marks:?} bytes"),
                     );
+                }
+                if marks.windows(2).any(|w| w[1] != w[0]) {
+                    hits.push("live_heap_not_constant_across_cycles");
                 }
                 for h in hits {
                     obs.hit(h);
@@ -563,7 +569,7 @@ impl Prop for C20 {
             "the extern \"C\" functions are called through the rlib (same symbols a C caller links)",
             "strings containing a carriage return are only required not to crash (the header promises LF separation)",
             "with several faults in one start call any of the applicable error codes is accepted",
-            "leak oracle: after the judged cycle, two further identical start/on_events/stop cycles are run and the live heap (counting allocator) must be the same after each",
+            "leak oracle: after the judged cycle, four further identical start/on_events/stop cycles are run; a leak is reported when the live heap of the case-running thread (counting allocator) grows with every cycle (a one-off difference is only counted, class live_heap_not_constant_across_cycles)",
         ]
     }
 
